@@ -445,3 +445,72 @@ def ob_whole_run_sends_during_backoff(d: int, t1: int, t2: int, hold: int) -> bo
 
 
 DBACK = B(2, 3)
+
+
+# ------------------------------------------------------------------------------------------------ one workflow object, several runs
+# A server keeps ONE workflow object and starts, resumes and starts runs on it.  What an earlier run's snapshot contained must never reach a
+# later FRESH run: "each event is handed exactly once" includes "not again to the next run".
+import json as _json  # noqa: E402
+
+from workflows.context.context_types import SerializedContext as _SerCtx  # noqa: E402
+from workflows.context.serializers import JsonSerializer as _JS  # noqa: E402
+from workflows.events import StartEvent as _StartEv, StopEvent as _StopEv  # noqa: E402
+from workflows.runtime.types.internal_state import BrokerState as _BS, EventAttempt as _EA  # noqa: E402
+
+
+class E2A(Event):
+    pass
+
+
+class E2B(Event):
+    pass
+
+
+class _ReuseFlow(Workflow):
+    @step
+    async def a(self, ev: E2A) -> E2B:
+        return E2B()
+
+    @step
+    async def b(self, ev: E2B | _StartEv) -> _StopEv:
+        return _StopEv()
+
+
+def _shape(state) -> list:
+    return [bool(state.is_running)] + [(n, len(ws.queue), len(ws.in_progress), sorted(ws.collected_events), len(ws.collected_waiters))
+                                       for n, ws in sorted(state.workers.items())]
+
+
+@obligation(quick=60, thorough=120,
+            what="one workflow OBJECT: a snapshot with pending work (q queued events, a collect buffer, running flag) is resumed on it "
+                 "(BrokerState.from_serialized, as Context.from_dict + run do), then a FRESH run's initial state is asked for "
+                 "(BrokerState.from_workflow, as every run() without a context does) - once or twice: the fresh state is pristine, exactly "
+                 "like the one of a new object of the class",
+            bounds={"queued events in the snapshot": "0..2", "resumes before the fresh run": "1..2"})
+def ob_fresh_run_after_a_resume_on_the_same_object(q: int, resumes: int, buffered: bool) -> bool:
+    """
+    pre: 0 <= q <= 2 and 1 <= resumes <= 2
+    post: _
+    """
+    from vlib.h_handlers import conc, concb, native
+
+    q, resumes, buffered = conc(q, 0, 2), conc(resumes, 1, 2), concb(buffered)
+
+    def scenario():
+        ser = _JS()
+        wf = _ReuseFlow(disable_validation=True)
+        live = _BS.from_workflow(wf).deepcopy()
+        live.is_running = True
+        for _ in range(q):
+            live.workers["a"].queue.append(_EA(event=E2A()))
+        if buffered:
+            live.workers["a"].collected_events["buf"] = [E2A()]
+        wire = _json.dumps(live.to_serialized(ser).model_dump(mode="python"))
+        for _ in range(resumes):
+            _BS.from_serialized(_SerCtx.from_dict_auto(_json.loads(wire)), wf, ser)
+        fresh = _BS.from_workflow(wf)
+        pristine = _BS.from_workflow(_ReuseFlow(disable_validation=True))
+        return _shape(fresh), _shape(pristine)
+
+    got, want = native(scenario)
+    return got == want
